@@ -54,19 +54,29 @@ func genC08(tier string, r *rng, emit func(string)) {
 	// (1b) every ordered element type with negatives and ties: flat and per-axis arg-reductions and
 	//      the three folds (the flat arg kernels and the reduction kernels are generated per type)
 	for _, dt := range []string{"i", "i8", "i16", "i32", "i64", "f32", "f64", "u8", "u16", "u32", "u64", "u"} {
-		base := -3
+		// all-negative, mixed and all-positive runs: a fold seeded with the wrong start value (0
+		// instead of the first element) shows only on runs of one sign
+		bases := []int{-3, -12, 1}
 		if dt[0] == 'u' {
-			base = 0
+			bases = []int{0, 1}
 		}
-		for _, sh := range [][]int{{6}, {2, 3}} {
-			pre := fmt.Sprintf("prog %s new:rm:%s:%d;setat:0:%s:%d", dt, fints(sh), base, fints(make([]int, len(sh))), base+4)
-			for ax := -1; ax < len(sh); ax++ {
-				emit(fmt.Sprintf("%s;arg:max:0:%d", pre, ax))
-				emit(fmt.Sprintf("%s;arg:min:0:%d", pre, ax))
-			}
-			for _, k := range []string{"sum", "min", "max"} {
-				emit(fmt.Sprintf("%s;reduce:%s:0:%d", pre, k, len(sh)-1))
-				emit(fmt.Sprintf("%s;reduce:%s:0:0", pre, k))
+		for _, base := range bases {
+			for _, sh := range [][]int{{6}, {2, 3}, {2, 2, 2}} {
+				pre := fmt.Sprintf("prog %s new:rm:%s:%d;setat:0:%s:%d", dt, fints(sh), base, fints(make([]int, len(sh))), base+4)
+				for ax := -1; ax < len(sh); ax++ {
+					emit(fmt.Sprintf("%s;arg:max:0:%d", pre, ax))
+					emit(fmt.Sprintf("%s;arg:min:0:%d", pre, ax))
+				}
+				for _, k := range []string{"sum", "min", "max"} {
+					for ax := 0; ax < len(sh); ax++ {
+						emit(fmt.Sprintf("%s;reduce:%s:0:%d", pre, k, ax))
+					}
+					emit(fmt.Sprintf("%s;reduce:%s:0:_", pre, k))
+					if len(sh) == 3 {
+						emit(fmt.Sprintf("%s;reduce:%s:0:0,2", pre, k))
+						emit(fmt.Sprintf("%s;reduce:%s:0:1,2", pre, k))
+					}
+				}
 			}
 		}
 	}
